@@ -10,6 +10,7 @@ import vlib
 from runner import Property, ExecError
 from vlib import cz, clist, cbool
 from c16sim import QueueSim, SafeMapSim, LruSim
+import c16hash
 
 T0_BASE = 10 ** 15          # virtual clock base (0 means "unset" elsewhere in go-zero)
 TAG = 1 << 32               # Set keys: tag * 2^32 + value
@@ -176,6 +177,50 @@ def _obs(o):
     if t == "take":
         return "OTake %s %s" % ("None" if o[1] is None else "(Some %s)" % cz(o[1]), cbool(o[2]))
     raise ValueError("unknown observation %r" % (o,))
+
+
+OBSERVING = ("get", "take", "take_race", "take_nested", "held", "size")
+
+
+def flatten_cache(ops, seen):
+    """Cache histories as the models read them: bulk operations expanded, and every gated Take
+    (`take_gate k v inner`: the loader is held while `inner` runs on another goroutine) put at its
+    linearisation point - where its loader returned and the loaded value was stored: after the
+    inner operations the executor saw completed while the loader was parked (all of them unless
+    the cache made them wait), before the others; a gated Take that hit never ran its loader and
+    comes first.  The observations are reordered the same way (the executor reports a gated Take's
+    result in front of the inner ones).  Returns (flat ops, flat observations)."""
+    it = iter(seen)
+    fops, fseen = [], []
+
+    def emit(o):
+        if o[0] == "delseq":
+            fops.extend(["del", o[1] + i] for i in range(o[2]))
+        elif o[0] == "setseq":
+            fops.extend(["set", o[1] + i] + list(o[3:5]) for i in range(o[2]))
+        else:
+            fops.append(o)
+            if o[0] in OBSERVING:
+                r = next(it, None)
+                if r is not None:
+                    fseen.append(r)
+    for o in ops:
+        if o[0] != "take_gate":
+            emit(o)
+            continue
+        r = next(it, None)
+        n = 0
+        if r is not None and r[0] == "take" and len(r) >= 5 and r[3]:
+            n = max(0, min(len(o[3]), int(r[4])))
+        for x in o[3][:n]:
+            emit(x)
+        fops.append(["take", o[1], o[2]])
+        if r is not None:
+            fseen.append(r[:3] if r[0] == "take" else r)
+        for x in o[3][n:]:
+            emit(x)
+    fseen += [r for r in it if r is not None]
+    return fops, fseen
 
 
 class C16(Property):
@@ -348,6 +393,28 @@ class C16(Property):
         if self.STALE_ID in vlib.known_ids(self.id):
             cs.append({"kind": "cachew", "limit": 0, "expire_ms": e2, "ops":
                        [["set", 1, 10, e1], ["tick_hold"], ["set", 1, 11, e3], ["release"], ["get", 1], ["held"]]})
+        # a Take held inside its loader while OTHER keys are deleted / expire / are evicted: keys that
+        # share hash(key) % {256, 1024, 4096} with the loaded key (core/hash's murmur3, FNV, CRC), and
+        # bulk runs of 1200 consecutive keys; the loaded value must be held afterwards and not reloaded
+        # (seed C16-9: striped deletion counters)
+        cols = c16hash.colliders(1, mods=self.COLLIDE_MODS)
+        c0 = cols[0]
+        cs.append({"kind": "cache", "limit": 0, "ops":
+                   [["set", 2, 20], ["take_gate", 1, 10, [["del", c] for c in cols]], ["get", 1], ["held"], ["take", 1, 99],
+                    ["get", 2]]})
+        cs.append({"kind": "cache", "limit": 0, "ops":
+                   [["set", 2, 20], ["take_gate", 1, 10, [["delseq", 1000, 1200]]], ["get", 1], ["held"], ["take", 1, 99],
+                    ["del", 1], ["take_gate", 1, None, [["del", c0], ["get", 1]]], ["held"], ["take", 1, 11], ["held"]]})
+        cs.append({"kind": "cache", "limit": 2, "ops":
+                   [["set", 2, 20], ["set", 3, 30], ["take_gate", 1, 10, [["set", c0, 5], ["del", c0], ["get", 3], ["held"]]],
+                    ["held"], ["get", 1], ["take", 1, 9], ["set", 4, 40], ["held"],
+                    ["take_gate", 5, 50, [["set", c0, 6], ["set", 901, 7], ["held"]]], ["held"], ["get", 5], ["take", 5, 51]]})
+        cs.append({"kind": "cachew", "limit": 0, "expire_ms": e2, "ops":
+                   [["set", c0, 7, e1], ["set", 2, 20, e3], ["take_gate", 1, 10, [["tick"], ["get", c0], ["held"]]],
+                    ["get", 1], ["held"]] + T + [["get", 1], ["take", 1, 99]] + T + G(1, 2) + [["held"]]})
+        cs.append({"kind": "cachew", "limit": 0, "expire_ms": e2, "ops":
+                   [["setseq", max(1000, c0 - 300), 620, 5, e1], ["size"], ["take_gate", 1, 10, [["tick"], ["size"]]],
+                    ["get", 1], ["held"]] + T + [["take", 1, 99]] + T + G(1) + [["held"]]})
         # two concurrent Takes of one key (loader gated), limit 1: one load, one entry, one eviction
         cs.append({"kind": "cache_take2", "limit": 1, "ops": [["set", 1, 10], ["take2", 9, 90, 91], ["get", 9], ["get", 1]]})
         cs.append({"kind": "cache_take2", "limit": 2, "ops":
@@ -372,7 +439,7 @@ class C16(Property):
     def gen(self, rng, n, tier):
         kinds = (["window"] * 5 + ["window_phased"] * 4 + ["safemap"] * 3 + ["queue"] + ["queue_phased"] * 3 +
                  ["ring"] + ["ring_phased"] * 2 + ["set"] * 2 + ["cache"] * 2 + ["cache_phased"] * 3 +
-                 ["cachew"] * 3 + ["cache_take2"] + ["lin"] * 2 + ["window_gate"] * 2)
+                 ["cachew"] * 3 + ["cache_take2"] + ["lin"] * 2 + ["window_gate"] * 2 + ["cache_gate"] * 2 + ["cachew_gate"])
         cases = []
         for _ in range(n):
             k = rng.choice(kinds)
@@ -950,6 +1017,113 @@ class C16(Property):
         return {"kind": "window_gate", "size": size, "interval": iv, "t0": t0, "ignore": ig, "ops": pre,
                 "gate_at": tr, "hold": hold, "adds": adds, "post": post}
 
+
+    # ---- a Take held inside its loader while OTHER keys are used (forced schedule) ----------
+    COLLIDE_MODS = (256, 1024, 4096)
+
+    def _gate_inner(self, rng, k, others, limit, val, expiry=None):
+        """Operations on keys other than k to run while Take(k)'s loader is parked: Dels of keys that
+        share hash(key) % n with k (core/hash's murmur3, FNV, CRC; n = 256, 1024, 4096), bulk Dels of
+        600..1500 consecutive absent keys (any per-stripe / per-shard / per-hash state shared between
+        distinct keys is hit), a same-stripe key written then deleted, Set / Get / Del / Take of the
+        keys in use, with a limit: inserts that evict, a read of k itself (a miss: nothing is stored
+        yet), key sets and sizes."""
+        cols = c16hash.colliders(k, mods=self.COLLIDE_MODS)
+        ex = (lambda: [expiry()]) if expiry else (lambda: [])
+        parts = rng.sample(["collide", "bulk", "present", "setdel", "evict", "self", "probe", "setbulk"],
+                           rng.randint(1, 4))
+        if rng.random() < 0.7 and "collide" not in parts and "bulk" not in parts:
+            parts.append(rng.choice(["collide", "bulk"]))
+        rng.shuffle(parts)
+        inner = []
+        for ph in parts:
+            if ph == "collide":
+                inner += [["del", c] for c in cols]
+            elif ph == "bulk":
+                n = rng.randint(600, 1500)
+                base = max(1000, (cols[0] if cols else 1000) - rng.randrange(n))
+                inner.append(["delseq", base, n])
+            elif ph == "present" and others:
+                for _ in range(rng.randint(1, 4)):
+                    o = rng.choice(others)
+                    inner.append(rng.choice([["set", o, val()] + ex(), ["get", o], ["del", o], ["take", o, val()],
+                                             ["del", o]]))
+            elif ph == "setdel" and cols:
+                c = rng.choice(cols)
+                inner += [["set", c, val()] + ex(), ["get", c], ["del", c]]
+            elif ph == "evict" and limit > 0:
+                for c in (cols + [900, 901, 902, 903, 904, 905])[:limit + rng.randint(0, 1)]:
+                    inner.append(["set", c, val()] + ex())
+            elif ph == "self":
+                inner.append(["get", k])
+            elif ph == "probe":
+                inner.append(rng.choice([["held"], ["size"]]))
+            elif ph == "setbulk":
+                n = rng.randint(100, 300)
+                inner += [["setseq", 5000, n, val()] + ex(), ["delseq", 5000 + rng.randint(0, 3), n]]
+        return inner or [["del", (cols or [1000])[0]]]
+
+    def _gen_cache_gate(self, rng, tier):
+        limit = rng.choice([0, 0, 0, -1, 1, 2, 3, 5])
+        small = list(range(0, 7))            # key 0 is the empty string
+        val = lambda: 0 if rng.random() < 0.08 else rng.randrange(1, 1000)
+        ops = []
+        for _ in range(rng.randint(0, 6)):
+            o = rng.choice(small)
+            ops.append(rng.choice([["set", o, val()], ["take", o, val()], ["get", o], ["del", o]]))
+        for _ in range(rng.randint(1, 3)):
+            k = rng.choice(small)
+            others = [x for x in small if x != k]
+            if rng.random() < 0.8:
+                ops.append(["del", k])      # absent: the Take will load (otherwise it may hit: also legal)
+            inner = self._gate_inner(rng, k, others, limit, val)
+            ops.append(["take_gate", k, None if rng.random() < 0.12 else val(), inner])
+            ops += [["held"], ["get", k], ["take", k, val()]]
+            for _ in range(rng.randint(0, 4)):
+                o = rng.choice(small)
+                ops.append(rng.choice([["set", o, val()], ["take", o, val()], ["get", o], ["del", o], ["size"]]))
+        rng.shuffle(small)
+        ops += [["held"], ["size"]] + [["get", x] for x in small]
+        return {"kind": "cache", "limit": limit, "name": rng.random() < 0.2, "ops": ops}
+
+    def _gen_cachew_gate(self, rng, tier):
+        """the same with the cache's wheel driven tick by tick: other entries (a key of k's stripe, up
+        to hundreds of keys at once) EXPIRE while the loader of k is parked - the wheel's callback is
+        cache.Del(other key) - and k's own life starts when its loader returns"""
+        iv, es = self._expiries_ms()
+        limit = rng.choice([0, 0, 0, 1, 2, 3])
+        small = list(range(1, 5))
+        k = rng.choice(small)
+        others = [x for x in small if x != k]
+        cols = c16hash.colliders(k, mods=self.COLLIDE_MODS)
+        val = lambda: rng.randrange(1, 1000)
+        e1 = es[1]                            # one tick
+        expiry = lambda: rng.choice(es[1:4])
+        dflt = rng.choice(es[1:4])
+        ops = []
+        for o in rng.sample(others, rng.randint(0, len(others))):
+            ops.append(["set", o, val(), expiry()])
+        nb = 0
+        if limit == 0 and rng.random() < 0.5:
+            nb = rng.randint(300, 640)
+            base = max(1000, (cols[0] if cols else 1000) - rng.randrange(nb))
+            ops.append(["setseq", base, nb, val(), e1])
+        for c in cols[:rng.randint(1, 3)]:
+            ops.append(["set", c, val(), rng.choice([e1, e1, es[2]])])
+        inner = [["tick"]]
+        if rng.random() < 0.6:
+            inner += [["get", cols[0]]] if cols else []
+            inner += rng.choice([[], [["tick"]], [["held"]], [["size"], ["tick"]]])
+        if rng.random() < 0.5:
+            inner += self._gate_inner(rng, k, others, limit, val, expiry=expiry)
+        if rng.random() < 0.3:
+            inner.append(["tick"])
+        ops.append(["take_gate", k, None if rng.random() < 0.1 else val(), inner])
+        due = dflt // iv
+        ops += [["held"], ["get", k]] + [["tick"]] * (due - 1) + [["get", k], ["take", k, val()], ["tick"], ["get", k], ["held"]]
+        ops += [["tick"]] * rng.randint(0, 2) + [["held"]] + [["get", x] for x in small]
+        return {"kind": "cachew", "limit": limit, "expire_ms": dflt, "ops": ops}
+
     # ---- free-running goroutines (linearisability) -----------------------------------------
     def _gen_lin(self, rng, tier):
         obj = rng.choice(["queue", "queue", "ring", "cache", "cache", "safemap", "window"])
@@ -1169,14 +1343,17 @@ class C16(Property):
         if k == "set":
             return "KSet %s %s" % (clist(sum([self._sops(o) for o in case["ops"]], [])), so)
         if k == "cache":
-            return "KCache %s %s %s" % (cz(case["limit"]), clist(self._cache_ops(case["ops"], seen)), so)
+            fops, fseen = flatten_cache(case["ops"], seen)
+            return "KCache %s %s %s" % (cz(case["limit"]), clist(self._cache_ops(fops, fseen)), clist([_obs(o) for o in fseen]))
         if k == "cache_rt":
             return "KCache %s %s %s" % (cz(case["limit"]), clist(sum([self._ccops(o) for o in self._rt_ops(case, obs)], [])), so)
         if k == "cachew":
             c = self.consts
             iv_ms = c["interval_ns"] // 10 ** 6
+            fops, fseen = flatten_cache(case["ops"], seen)
             return "KCacheW %s %s %s %s %s %s" % (cz(case["limit"]), cz(c["slots"]), cz(iv_ms), cbool(c["rewrite_moves"]),
-                                                  clist([self._xop(o, case["expire_ms"]) for o in case["ops"]]), so)
+                                                  clist([self._xop(o, case["expire_ms"]) for o in fops]),
+                                                  clist([_obs(o) for o in fseen]))
         if k == "cache_take2":
             # the pair of concurrent Takes must be indistinguishable from ONE loading Take (by A):
             # B blocked behind A's flight, B's loader not called, B got A's value
@@ -1414,6 +1591,13 @@ class C16(Property):
             return bool(g.get("gated")) and rolled and len(g.get("view") or []) > case["hold"]
         ops = case["ops"]
         seen = obs["obs"]
+        if k in ("cache", "cachew"):
+            gated = any(o[0] == "take_gate" for o in ops)
+            ops, seen = flatten_cache(ops, seen)
+            if gated:
+                # a loader was parked while other keys were used, and the value it returned was looked for afterwards
+                raw = [r for r in obs["obs"] if r and r[0] == "take" and len(r) >= 5]
+                return any(r[3] and r[4] > 0 for r in raw)
         if k == "window":
             iv, t0 = case["interval"], case["t0"]
             crossed = len(set((o[1] - t0) // iv for o in ops)) > 1
@@ -1519,6 +1703,15 @@ class C16(Property):
             fs.append("set:managed" if case.get("ignore") else "set:unmanaged")
         elif k in ("cache", "cache_rt", "cachew", "cache_take2"):
             fs.append("%s:limit=%d" % (k, case["limit"]))
+            if any(o[0] == "take_gate" for o in case["ops"]):
+                raw = [r for r in obs["obs"] if r and r[0] == "take" and len(r) >= 5]
+                fs.append("%s:take-held-in-loader" % k)
+                if any(r[3] and r[4] > 0 for r in raw):
+                    fs.append("%s:other-keys-used-while-loader-held" % k)
+                if any(r[3] and r[4] < len(o[3]) for r, o in zip(raw, [o for o in case["ops"] if o[0] == "take_gate"])):
+                    fs.append("%s:other-keys-waited-for-loader" % k)
+                if any(x[0] == "delseq" and x[2] >= 600 for o in case["ops"] if o[0] == "take_gate" for x in o[3]):
+                    fs.append("%s:>=600-other-keys-while-loader-held" % k)
             if k == "cachew" and any(o[0] == "tick_hold" for o in case["ops"]):
                 fs.append("cachew:expiry-callback-held")
             if k == "cachew":
@@ -1568,6 +1761,23 @@ class C16(Property):
                         c = dict(case)
                         c["ops"] = ops[:i] + [o2] + ops[i + 1:]
                         res.append(c)
+        # a gated Take: drop / halve the operations run while its loader is held
+        for i, o in enumerate(ops):
+            if o[0] == "take_gate":
+                inner = o[3]
+                cands = []
+                if len(inner) > 1:
+                    h = len(inner) // 2
+                    cands += [inner[:h], inner[h:]] + [inner[:j] + inner[j + 1:] for j in range(len(inner))]
+                for j, x in enumerate(inner):
+                    if x[0] in ("delseq", "setseq") and x[2] > 1:
+                        for n2 in (x[2] // 2, x[2] - 1):
+                            cands.append(inner[:j] + [x[:2] + [n2] + x[3:]] + inner[j + 1:])
+                        cands.append(inner[:j] + [[x[0], x[1] + x[2] // 2, x[2] - x[2] // 2] + x[3:]] + inner[j + 1:])
+                for inn in cands:
+                    c = dict(case)
+                    c["ops"] = ops[:i] + [o[:3] + [inn]] + ops[i + 1:]
+                    res.append(c)
         res += Property.shrink_candidates(self, case)
         # heavy histories cost seconds each in Coq: try only a few candidates per round
         if self._weight(case) > 4000:
